@@ -620,11 +620,11 @@ double CMMaterialProp::DoEnergy(const double b1, const double b2)
 
         if(LamType==1){        // laminated parallel to x;
             h1=b1/((1.+LamFill*(mu_x-1.))*muo);
-            h2=b1*(LamFill/(mu_y*muo) + (1. - LamFill)/muo);
+            h2=b2*(LamFill/(mu_y*muo) + (1. - LamFill)/muo);
         }
 
         if(LamType==2){        // laminated parallel to x;
-            h2=b1/((1.+LamFill*(mu_y-1.))*muo);
+            h2=b2/((1.+LamFill*(mu_y-1.))*muo);
             h1=b1*(LamFill/(mu_x*muo) + (1. - LamFill)/muo);
         }
 
